@@ -296,6 +296,8 @@ func (g *generator) convertTo(ctx *builder.MethodContext, assignTo *builder.Assi
 		if source.Pointer && source.PointerInner.Struct {
 			sourcePointer = true
 			source = source.PointerInner
+			// the fields are selected through the pointer itself
+			sourceID = &xtype.JenID{Code: sourceID.Code, Variable: sourceID.Variable, ParentPointer: sourceID, ImplicitDeref: true}
 		} else {
 			return nil, builder.NewError("source type must be a struct or pointer struct for goverter:update signatures.")
 		}
